@@ -161,6 +161,7 @@ def check_property(prop, tier="quick", seed=0, only=None, verbose=False):
             elif o["status"] == "refuted":
                 refuted.append((cls, idx, o, shape))
                 fn["status"] = "refuted"
+                o["_cls"] = cls
             else:
                 undecided.append(dict(contract=cls, shape=shape, clause=o["name"], reason="solver unknown (z3 + cvc5)", formula=o.get("formula")))
                 if fn["status"] == "proved":
@@ -200,6 +201,7 @@ def check_property(prop, tier="quick", seed=0, only=None, verbose=False):
         groups[key]["search"] = sr
 
     findings = load_known_findings()
+    n_known_obl = 0
     for (cls, clause, idx), g in sorted(groups.items(), key=lambda kv: (kv[0][0], kv[0][1], kv[0][2])):
         modname, C = cmap[cls]
         shape = C.shapes[idx]
@@ -217,7 +219,11 @@ def check_property(prop, tier="quick", seed=0, only=None, verbose=False):
                    formula=o.get("formula"), native_replay=g["replay"], native_search=g["search"],
                    replay_cmd=f"./check {prop} --replay <this file>")
         if fd is not None:
-            known_hits.append(dict(finding=fd["id"], contract=cls, clause=clause, shape=shape, what=fd["what"]))
+            known_hits.append(dict(finding=fd["id"], contract=cls, clause=clause, shape=shape, what=fd["what"], obligations=len(g["obls"]),
+                                   failing_input=inp, confirmed_natively=bool(g["confirmed"])))
+            n_known_obl += len(g["obls"])
+            functions[cls]["obligations"] -= len(g["obls"])
+            functions[cls]["known_finding_obligations"] = functions[cls].get("known_finding_obligations", 0) + len(g["obls"])
             continue
         fname = f"replays/{prop}-{cls}-{_slug(clause)}-s{idx}.json"
         rec["no_failing_input_found"] = inp is None
@@ -315,8 +321,9 @@ def check_property(prop, tier="quick", seed=0, only=None, verbose=False):
         wall_s=round(wall, 2),
         violations=len(violations),
         coverage=dict(
-            obligations=n_obl,
+            obligations=n_obl - n_known_obl,
             discharged=n_dis,
+            obligations_refuted_by_known_findings=n_known_obl,
             checker_cmd=f"./check {prop} --tier {tier}",
             trusted_base=sorted(set(spec.get("trusted_base", []) + COMMON_TRUSTED)),
             samples=samples or [dict(note="no obligation sample")],
